@@ -231,11 +231,49 @@ def get_grid(K, gi):
     return _GRID_CACHE[key]
 
 
-def check_cells(ctx, K, vxy, verts4, closed, gi):
-    g, (CX, CY) = get_grid(K, gi)
-    inside, onedge = oracle(verts4, CX, CY)
+MOVING = {      # two geometries of the same shape: one Grid object is moved between them by attribute assignment
+    2: [(5, 3, 0.5, -0.25, 0.25), (5, 3, 0.75, -0.625, -0.125)],
+    3: [(7, 5, 0.5, -0.25, 0.25), (7, 5, 0.75, -0.625, -0.125)],
+}
+_MOVING = {}
+
+
+def moving_grid(K, phase, fresh=False):
+    """the single Grid object of this worker for K, re-georeferenced to MOVING[K][phase] through its public
+    attributes (history: it was queried in the other geometry before, except on the very first call)"""
+    from hydrodiy.gis.grid import Grid
+    if fresh or K not in _MOVING:
+        ncols, nrows, csz, xll, yll = MOVING[K][1 - phase]
+        g = Grid("moving", ncols=ncols, nrows=nrows, cellsize=csz, xllcorner=xll, yllcorner=yll)
+        _MOVING[K] = [g, {p: grid_centres4(MOVING[K][p]) for p in (0, 1)}, None]
+    ent = _MOVING[K]
+    g = ent[0]
+    ncols, nrows, csz, xll, yll = MOVING[K][phase]
+    g.cellsize = np.float64(csz)
+    g.xllcorner = np.float64(xll)
+    g.yllcorner = np.float64(yll)
+    return g, ent[1][phase]
+
+
+def check_cells(ctx, K, vxy, verts4, closed, gi, moving=None):
     poly = float_poly(vxy, closed, TRANSFORMS[0])
-    case = {"kind": "cells", "K": K, "verts": [list(v) for v in vxy], "closed": closed, "grid": gi}
+    if moving is None:
+        g, (CX, CY) = get_grid(K, gi)
+        case = {"kind": "cells", "K": K, "verts": [list(v) for v in vxy], "closed": closed, "grid": gi}
+    else:
+        # moving = (phase, replaying): in a replay the grid is created in the other geometry and queried once first
+        phase, replaying = moving
+        if replaying:
+            g0, _ = moving_grid(K, 1 - phase, fresh=True)
+            try:
+                g0.cells_inside_polygon(poly)
+            except Exception:
+                pass
+        g, (CX, CY) = moving_grid(K, phase)
+        case = {"kind": "cells", "K": K, "verts": [list(v) for v in vxy], "closed": closed, "grid": "moving", "phase": phase}
+        gi = "moving-phase%d" % phase
+        ctx.count("cells.moved_grid_calls")
+    inside, onedge = oracle(verts4, CX, CY)
     ncell = len(CX)
     try:
         df = g.cells_inside_polygon(poly)
@@ -248,7 +286,7 @@ def check_cells(ctx, K, vxy, verts4, closed, gi):
         return
     nj = int((~onedge).sum())
     ctx.case(bool(inside.any()), outcome=tuple(cells), n=nj)
-    gname = "grid%d" % gi
+    gname = "grid%s" % gi
     if len(set(cells)) != len(cells):
         ctx.violation("cells_inside_polygon:duplicate-cells", case, "cells %r" % (cells,), observed=cells)
     got = set(cells)
@@ -259,12 +297,12 @@ def check_cells(ctx, K, vxy, verts4, closed, gi):
     if missing:
         ctx.violation("cells_inside_polygon:missing-cell", case,
                       "%s %r, polygon %s: cells %r have their centre inside but are not returned (got %r)" % (
-                          gname, GRIDS[K][gi], [list(v) for v in vxy], missing, cells),
+                          gname, GRIDS[K][gi] if moving is None else MOVING[K][moving[0]], [list(v) for v in vxy], missing, cells),
                       observed=cells, expected=sorted(must))
     if extra:
         ctx.violation("cells_inside_polygon:extra-cell", case,
                       "%s %r, polygon %s: cells %r returned but their centre is outside (or not a cell)" % (
-                          gname, GRIDS[K][gi], [list(v) for v in vxy], extra),
+                          gname, GRIDS[K][gi] if moving is None else MOVING[K][moving[0]], [list(v) for v in vxy], extra),
                       observed=cells, expected=sorted(must))
     for c, x, y in zip(cells, xs, ys):
         if 0 <= c < ncell and (x * 4 != CX[c] or y * 4 != CY[c]):
@@ -307,6 +345,9 @@ def check_sequence(ctx, gutils, K, seq, canon_exp, PX, PY, Pts, trs, with_cells,
             check_cells(ctx, K, vxy, verts4, False, gi)
             if canon_exp is None:
                 check_cells(ctx, K, vxy, verts4, True, gi)
+        # history: the same Grid object queried after its georeferencing was changed (alternating geometries)
+        for phase in (0, 1):
+            check_cells(ctx, K, vxy, verts4, False, None, moving=(phase, False))
     return exp, onedge
 
 
@@ -350,6 +391,9 @@ def replay(case):
     vxy = [tuple(v) for v in case["verts"]]
     K = case.get("K") or max(2, max(max(v) for v in vxy))
     verts4 = [(4 * x, 4 * y) for x, y in vxy]
+    if case["kind"] == "cells" and case["grid"] == "moving":
+        check_cells(ctx, K, vxy, verts4, case["closed"], None, moving=(case["phase"], True))
+        return [v for lst in ctx.violations.values() for v in lst]
     if case["kind"] == "cells":
         check_cells(ctx, K, vxy, verts4, case["closed"], case["grid"])
         return [v for lst in ctx.violations.values() for v in lst]
